@@ -106,7 +106,7 @@ def instantiate_type(
             is_shared_ptr=ctype.is_shared_ptr,
             is_ptr=ctype.is_ptr,
             is_ref=ctype.is_ref,
-            is_basic=ctype.is_basic,
+            is_basic=False,
         )
     # Check for exact template match.
     elif str_arg_typename in template_typenames:
